@@ -28,9 +28,10 @@ type srcState struct {
 	mu sync.Mutex
 	cv *sync.Cond
 
-	batches []int // queued responses (sizes)
-	stopDelayUs int // the plugin's Stop call takes this long (a slow plugin)
-	gen     int   // incremented by every Open: a producer of an older run stops
+	batches     []int // queued responses (sizes)
+	stopDelayUs int   // the plugin's Stop call takes this long (a slow plugin)
+	ackHold     bool  // the plugin does not consume acks for the time being (a gate on its ack receive)
+	gen         int   // incremented by every Open: a producer of an older run stops
 }
 
 func (w *World) src(id string) *srcState {
@@ -51,6 +52,16 @@ func (w *World) SlowStop(id string, us int) {
 	s.mu.Lock()
 	s.stopDelayUs = us
 	s.mu.Unlock()
+}
+
+// HoldAcks parks (hold=true) or resumes the consumption of acks by source id's plugin: while
+// parked the plugin does not receive from its stream, so the engine's ack send stays in flight.
+func (w *World) HoldAcks(id string, hold bool) {
+	s := w.src(id)
+	s.mu.Lock()
+	s.ackHold = hold
+	s.mu.Unlock()
+	s.cv.Broadcast()
 }
 
 // Emit lets source id hand out one more response with n records.
@@ -112,6 +123,11 @@ func (p *srcPlugin) Run(ctx context.Context, stream pconnector.SourceRunStream) 
 	go func() {
 		defer close(ackDone)
 		for {
+			p.st.mu.Lock()
+			for p.st.ackHold && !p.isDone() {
+				p.st.cv.Wait()
+			}
+			p.st.mu.Unlock()
 			req, err := server.Recv()
 			if err != nil {
 				return
@@ -309,6 +325,18 @@ func (w *World) ReleaseVerdicts() {
 // Release opens every gate for good.
 func (w *World) Release() {
 	w.ReleaseVerdicts()
+	w.mu.Lock()
+	var ss []*srcState
+	for _, s := range w.srcs {
+		ss = append(ss, s)
+	}
+	w.mu.Unlock()
+	for _, s := range ss {
+		s.mu.Lock()
+		s.ackHold = false
+		s.mu.Unlock()
+		s.cv.Broadcast()
+	}
 	w.mu.Lock()
 	w.noHold = true
 	w.mu.Unlock()
@@ -520,6 +548,7 @@ func (p *procPlugin) Specification() (sdk.Specification, error) {
 	return sdk.Specification{Name: "fake-proc", Version: "v0.0.1"}, nil
 }
 func (p *procPlugin) Configure(context.Context, config.Config) error { return nil }
+
 // ErrProcOpen is what a fake processor instance armed with FailNext answers to Open.
 var ErrProcOpen = errors.New("fake processor: open refused")
 
@@ -596,7 +625,7 @@ func (quietProc) Specification() (sdk.Specification, error) {
 	return sdk.Specification{Name: "fake-proc", Version: "v0.0.1"}, nil
 }
 func (quietProc) Configure(context.Context, config.Config) error { return nil }
-func (quietProc) Open(context.Context) error                   { return nil }
+func (quietProc) Open(context.Context) error                     { return nil }
 func (quietProc) Process(_ context.Context, recs []opencdc.Record) []sdk.ProcessedRecord {
 	res := make([]sdk.ProcessedRecord, len(recs))
 	for i, r := range recs {
